@@ -59,7 +59,7 @@ def gen_cases(tier, seed):
     cases = []
     for i in range(n):
         model = ["PREM", "CoreMantleCrustModel"][i % 2]
-        cls = ["random", "near-tangential", "vertical-down", "vertical-up", "skimming", "ladder", "dip-pair"][(i // 2) % 7]
+        cls = ["random", "near-tangential", "vertical-down", "vertical-up", "skimming", "ladder", "dip-pair", "shallow-overburden"][(i // 2) % 8]
         far = rng.random() < 0.2
         xy = rng.uniform(-1e6, 1e6, size=2) if far else rng.uniform(-1e4, 1e4, size=2)
         z = -rng.uniform(0, 3000) if rng.random() < 0.9 else rng.uniform(0, 50)
@@ -75,11 +75,17 @@ def gen_cases(tier, seed):
             ct = 1.0
         elif cls == "skimming":
             ct = -10 ** rng.uniform(-4, -1.5)
+        elif cls == "shallow-overburden":
+            # a chord from a shallow end point (centimetres ... 100 m deep, i.e. within 2e-5 of the Earth's radius from the
+            # surface) up to the surface: only the overburden is crossed, and it is integrated with a step that resolves it
+            z = -float(10 ** rng.uniform(-2, 2))
+            xy = rng.uniform(-3e3, 3e3, size=2)
+            ct = float(10 ** rng.uniform(-2.5, 0))
         else:
             ct = -rng.uniform(0.02, 0.95)
         ph = rng.uniform(0, 2 * np.pi)
         cases.append({"cls": cls, "model": model, "endpoint": [float(xy[0]), float(xy[1]), float(z)], "ct": float(ct), "phi": float(ph),
-                      "scale": float(10 ** rng.uniform(-2, 2)) if rng.random() < 0.7 else float(10 ** rng.uniform(-14, 12)), "step": float(rng.choice([2000, 500, 125, 31])),
+                      "scale": float(10 ** rng.uniform(-2, 2)) if rng.random() < 0.7 else float(10 ** rng.uniform(-14, 12)), "step": float(rng.choice([2000, 500, 125, 31])) if cls != "shallow-overburden" else float(rng.choice([31, 8, 2, 0.5])),
                       "dip_delta_deg": float(rng.uniform(0.5, 20))})
     cases.append({"cls": "repo-suite", "files": ["tests/test_earth_model.py", "tests/test_generation.py"]})      # the repository's own tests under the contract
     return cases
